@@ -116,6 +116,30 @@ function check (job, resp, prefix) {
       if (m.srcLine < span.lo || m.srcLine > span.hi) push('token-outside-statement-span', `token at generated ${m.genLine + 1}:${m.genCol} (${JSON.stringify((outLines[m.genLine] || '').slice(m.genCol, m.genCol + 24))}) maps to original line ${m.srcLine + 1}, outside the original statement's lines ${span.lo + 1}-${span.hi + 1}`, { mapping: m, span })
     }
     out.tokensInStatements = checked
+    // "any run-time position in rewritten code resolves to the correct original line": every TOKEN of the output that lies
+    // inside a paired statement is looked up the way a consumer does (greatest mapping at or before the position, across
+    // lines) - also the tokens that carry no mapping of their own - and must land inside the statement's line span
+    let resolved = 0
+    const sortedToks = toks.filter(x => x.src !== undefined).sort((x, y) => x.genLine - y.genLine || x.genCol - y.genCol)
+    try {
+      const acorn = require('../../vendor/acorn.js')
+      for (const tk of acorn.tokenizer(outCode, { ecmaVersion: 'latest', sourceType: a.sourceType === 'module' ? 'module' : 'script', allowHashBang: true, locations: true })) {
+        // only tokens an engine can report as the position of something that runs: names (call sites, property reads,
+        // `call`/`apply`), `new`/`throw`/… keywords, binary and assignment operators, template starts - not brackets or commas
+        const ty = tk.type
+        if (!(ty.label === 'name' || ty.label === 'privateId' || ty.label === '`' || ty.binop != null || ty.isAssign || ty.label === '+/-' || ['new', 'throw', 'typeof', 'delete', 'void', 'in', 'instanceof', 'yield', 'super', 'this'].includes(ty.keyword))) continue
+        const off = tk.start
+        if (inPrologue(off)) continue
+        if (injectedLets.find(x => off >= x.s && off < x.e)) continue // declarations execute nothing
+        const span = pairs.find(x => off >= x.s && off < x.e)
+        if (!span) continue
+        const m = S.lookupGlobal(sortedToks, tk.loc.start.line - 1, tk.loc.start.column)
+        if (!m) continue
+        resolved++
+        if (m.srcLine < span.lo || m.srcLine > span.hi) { push('position-resolves-outside-statement-span', `the output token ${JSON.stringify(outCode.slice(tk.start, Math.min(tk.end, tk.start + 24)))} at generated ${tk.loc.start.line}:${tk.loc.start.column} has no mapping of its own; a lookup of its position answers with the mapping at generated ${m.genLine + 1}:${m.genCol}, original line ${m.srcLine + 1}, outside the statement's span ${span.lo + 1}-${span.hi + 1}`, { token: outCode.slice(tk.start, tk.end) }); break }
+      }
+    } catch (e) { /* tokenizer errors: the parse above succeeded, nothing to add */ }
+    out.positionsResolved = resolved
   }
   return { out, violations }
 }
@@ -133,6 +157,12 @@ function layoutProgram (rng) {
   L.push('  if (alpha) second += beta; else second = gamma + alpha')
   L.push(`  const arrow = (delta) => ${pre}delta + alpha${nl}    + beta`)
   L.push(`  for (const item of [alpha, beta]) {${nl}    second += item?.trim()${nl}  }`)
+  // statements that BEGIN with an injected construct (nothing of the statement precedes it): a lowered optional chain, a
+  // hoisted call, a split += target - each right after another statement
+  L.push('  beta?.trim();')
+  L.push(`  gamma?.alpha${nl}    .concat(beta).length;`)
+  L.push('  alpha.concat(beta).trim();')
+  L.push('  gamma[alpha + beta] += second;')
   L.push(`  return arrow(${pre}second) + /* c */ first`)
   L.push('}')
   if (rng.bool(0.3)) L.push('export default layout')
@@ -142,7 +172,7 @@ function layoutProgram (rng) {
 module.exports = {
   id: 'C09',
   level: 'exploration',
-  rule: 'for every modified output the embedded map is decoded by an independent VLQ decoder; monitors: v3 envelope; sources == [basename(file)]; every mapping inside the input text; every copied variable reference/binding of the output (acorn AST, injected names excluded) has a mapping starting exactly at it that lands exactly on the same identifier text in the input; every mapped token of the output lies, after statement-level alignment of output and input, within the line span of the original statement it belongs to (injected let: enclosing block; prologue: must not be mapped). Workload: corpus, catalogue, random programs, layout programs (multi-line statements, CRLF, BOM, tabs, non-ASCII before identifiers), hostile file names. distinct_nontrivial = distinct (input, config, file) outputs whose map was fully checked. Workload additions: corpus files with enabled operations spliced onto randomly chosen expression nodes (25 wrappers x every expression slot; only texts V8 still compiles), the syntax zoo with LF/CRLF/CR line endings, a CRLF slice of the corpus. Call-history variant: a quarter of the layout programs run with chaining on (no map comment of their own, so the plain map is due) right after a transpiled predecessor whose inline map names a foreign source, on the same rewriter in the same process - the successor\'s map must not show anything of it.',
+  rule: 'for every modified output the embedded map is decoded by an independent VLQ decoder; monitors: v3 envelope; sources == [basename(file)]; every mapping inside the input text; every copied variable reference/binding of the output (acorn AST, injected names excluded) has a mapping starting exactly at it that lands exactly on the same identifier text in the input; every mapped token of the output lies, after statement-level alignment of output and input, within the line span of the original statement it belongs to (injected let: enclosing block; prologue: must not be mapped). Workload: corpus, catalogue, random programs, layout programs (multi-line statements, CRLF, BOM, tabs, non-ASCII before identifiers), hostile file names. distinct_nontrivial = distinct (input, config, file) outputs whose map was fully checked. Workload additions: corpus files with enabled operations spliced onto randomly chosen expression nodes (25 wrappers x every expression slot; only texts V8 still compiles), the syntax zoo with LF/CRLF/CR line endings, a CRLF slice of the corpus. Call-history variant: a quarter of the layout programs run with chaining on (no map comment of their own, so the plain map is due) right after a transpiled predecessor whose inline map names a foreign source, on the same rewriter in the same process - the successor\'s map must not show anything of it. Position monitor: every output token that an engine can report as a run-time position (names, `new`/`throw`/… keywords, binary and assignment operators, template starts) inside a paired statement is looked up the way a consumer does (greatest mapping at or before it, across lines) - including the injected tokens that carry no mapping of their own - and must resolve to a line of that statement.',
   assumptions: ['columns are UTF-16 code units on both sides (what V8 reports)', 'inputs with HTML-like comments (<!-- / -->) are skipped: swc positions the following token inside the comment', 'lines end at LF, CRLF or a lone CR (swc, V8 and acorn agree); inputs with raw U+2028 / U+2029 are skipped and counted: swc does not count them as line breaks while V8 and acorn do, so which line is the right one is not defined by the statement', 'files whose statements cannot be aligned (count mismatch) only get the envelope/range/identifier checks and are counted'],
   plan (ctx) {
     const shards = [{ kind: 'layout', count: ctx.tier === 'thorough' ? 6000 : 800 }]
@@ -182,7 +212,7 @@ module.exports = {
       if (out.k !== 'ok-modified') continue
       if (out.skipped) { bump(out.skipped); continue }
       rep.evaluations++
-      bump('mappings_decoded', out.mappings || 0); bump('copied_identifiers_with_exact_mapping', out.identifiers || 0); bump('tokens_checked_against_statement_span', out.tokensInStatements || 0)
+      bump('mappings_decoded', out.mappings || 0); bump('copied_identifiers_with_exact_mapping', out.identifiers || 0); bump('tokens_checked_against_statement_span', out.tokensInStatements || 0); bump('output_token_positions_resolved_into_their_statement', out.positionsResolved || 0)
       if (!out.aligned) bump('statement_alignment_failed')
       rep.distinct.push(hashStr(js[i].code + js[i].cfgName + (js[i].file || '')))
       if (rep.samples.length < 2 && js[i].code.length < 700) rep.samples.push({ input: js[i].code, file: js[i].file, mappings: out.mappings, identifiers: out.identifiers, tokens_in_statements: out.tokensInStatements })
